@@ -114,6 +114,20 @@ func c10Worker(env *fw.Env) {
 			}
 		}
 	}
+	// Close while a dial is in flight and nothing comes back (c10_dial.go)
+	base, n = 3_000_000, 0
+	for rep := 0; rep < env.Pick(1, 4); rep++ {
+		for _, tr := range []string{"hsmsss", "secs1"} {
+			for _, when := range []string{"cold-open", "reconnect"} {
+				i := base + n
+				n++
+				if !env.Mine(n) || !env.Want(i) {
+					continue
+				}
+				c10BlackholeDial(env, c10DialCase{Index: i, Transport: tr, When: when})
+			}
+		}
+	}
 }
 
 func c10DoubleOpen(env *fw.Env, i int64, sit string, active, delays bool) {
